@@ -1061,6 +1061,17 @@ void process_option_line(const std::string &config_line, const char *filename,
       auto       this_line_number = cpd.line_number;
       const auto &include_path    = args[1];
 
+      // a file that (indirectly) includes itself would recurse until the stack overflows
+      static int include_depth = 0;
+
+      if (include_depth >= 16)
+      {
+         OptionWarning w{ filename };
+         w("include: '%s' is nested too deeply (include cycle?)", include_path.c_str());
+         return;
+      }
+      ++include_depth;
+
       if (include_path.empty())
       {
          OptionWarning w{ filename };
@@ -1079,6 +1090,7 @@ void process_option_line(const std::string &config_line, const char *filename,
          // include is an absolute path
          UNUSED(load_option_file(include_path.c_str(), compat_level));
       }
+      --include_depth;
       cpd.line_number = this_line_number;
    }
 #endif
